@@ -5,6 +5,7 @@ theory `real` (constants at declared instances), in ASCII and Unicode, with line
 parse_term(print_term(t)) == t in a context declaring its free variables; likewise for types and sequents.
 The result must not depend on what was printed before (the run prints every term twice, once cold, once
 after other terms)."""
+import os
 import random
 import sys
 import time
@@ -12,8 +13,8 @@ import time
 
 def run(tier='quick', seed=0):
     t0 = time.time()
-    if '/repo' not in sys.path:
-        sys.path.insert(0, '/repo')
+    if os.environ.get('HOLPY_REPO', '/repo') not in sys.path:
+        sys.path.insert(0, os.environ.get('HOLPY_REPO', '/repo'))
     from logic import basic, context
     basic.load_theory('real')
     from kernel import term as K
@@ -25,7 +26,7 @@ def run(tier='quick', seed=0):
     from syntax.settings import settings
     rng = random.Random(seed)
     vars_ = {'x': 'nat', 'y': 'nat', 'a': 'real', 'b': 'real', 'P': 'bool', 'Q': 'bool', 'f': 'nat => nat',
-             'S': 'nat set', 'i': 'int'}
+             'S': 'nat set', 'i': 'int', 'gi': 'int => int', 'hr': 'real => real => real', 'k': 'nat', 'm': 'nat'}
     context.set_context('real', vars=vars_)
     x, y = Var('x', NatType), Var('y', NatType)
     a, b = Var('a', RealType), Var('b', RealType)
@@ -88,6 +89,63 @@ def run(tier='quick', seed=0):
         v = Var('u', NatType)
         return Eq(Lambda(v, gen_num(NatType, d - 1)), Lambda(v, K.plus(NatType)(v, Nat(1))))
 
+    gi = Var('gi', TFun(IntType, IntType))
+    hr = Var('hr', TFun(RealType, RealType, RealType))
+
+    def gen_app():
+        """function variables applied to literals, negative ones included, at int / real"""
+        lit_i = lambda: rng.choice([Int(-2), Int(-1), Int(0), Int(3), iv, K.uminus(IntType)(iv)])
+        lit_r = lambda: rng.choice([Real(-3), Real(-1), Real(2), a, K.uminus(RealType)(a), Real(0)])
+        k = rng.random()
+        if k < 0.35:
+            t = gi(lit_i())
+            if rng.random() < 0.4:
+                t = gi(t)
+            return Eq(t, lit_i()) if rng.random() < 0.5 else K.less(IntType)(K.plus(IntType)(t, lit_i()), lit_i())
+        t = hr(lit_r(), lit_r())
+        if rng.random() < 0.3:
+            t = hr(t, lit_r())
+        return Eq(t, lit_r()) if rng.random() < 0.5 else K.less_eq(RealType)(K.times(RealType)(lit_r(), t), lit_r())
+
+    from data import set as hol_set
+    from kernel.term import Abs, Bound
+
+    def gen_nest():
+        """two or three nested binders (forall / exists / lambda-equation / set comprehension) whose suggested names
+        are drawn with repetition from {k, m, x}; the body mentions every bound variable and the free k, m, x"""
+        depth = rng.choice([2, 2, 3])
+        names = [rng.choice(['k', 'm', 'x']) for _ in range(depth)]
+        atoms = [Bound(i) for i in range(depth)] + [Var('k', NatType), Var('m', NatType), x]
+        def num():
+            a1, a2 = rng.choice(atoms), rng.choice(atoms)
+            return rng.choice([a1, K.plus(NatType)(a1, a2), f(a1)])
+        body = rng.choice([K.less, K.less_eq])(NatType)(num(), num())
+        if rng.random() < 0.5:
+            body = And(body, K.equals(NatType)(num(), num()))
+        allC = lambda: Const('all', TFun(TFun(NatType, BoolType), BoolType))
+        exC = lambda: Const('exists', TFun(TFun(NatType, BoolType), BoolType))
+        t = body
+        for lvl in range(depth):            # innermost binder first
+            nm = names[depth - 1 - lvl]
+            ab = Abs(nm, NatType, t)
+            kind = rng.choice(['all', 'exists', 'collect'])
+            if kind == 'all':
+                t = allC()(ab)
+            elif kind == 'exists':
+                t = exC()(ab)
+            else:
+                # e : {nm. t}: membership keeps the term boolean; e may be an outer bound variable
+                loose = depth - lvl - 1
+                elem = rng.choice([Var('k', NatType), x] + [Bound(i) for i in range(loose)])
+                t = hol_set.mem(NatType)(elem, hol_set.collect(NatType)(ab))
+        return t
+
+    def t_is_bool(t):
+        try:
+            return t.is_open() or t.get_type() == BoolType
+        except Exception:
+            return True
+
     def roundtrip(t, unicode, ll):
         settings.unicode = unicode
         settings.line_length = ll
@@ -100,10 +158,20 @@ def run(tier='quick', seed=0):
             s = ' '.join(s)
         return s, parser.parse_term(s)
 
-    n = 400 if tier == 'quick' else 8000
+    n = 600 if tier == 'quick' else 8000
     pool = []
     for it in range(n):
-        t = gen_bool(rng.choice([1, 2, 3])) if rng.random() < 0.7 else gen_num(rng.choice([NatType, RealType, IntType]), 2)
+        r_ = rng.random()
+        if r_ < 0.15:
+            t = gen_app()
+        elif r_ < 0.35:
+            t = gen_nest()
+            if t is None or t.is_open():
+                continue
+        elif r_ < 0.8:
+            t = gen_bool(rng.choice([1, 2, 3]))
+        else:
+            t = gen_num(rng.choice([NatType, RealType, IntType]), 2)
         try:
             t.checked_get_type()
         except Exception:
@@ -160,7 +228,8 @@ def run(tier='quick', seed=0):
             uniq.append(v)
     return {'name': 'c07_roundtrip', 'rule': 'random well-typed terms (depth <= 3) over the theory real: connectives, '
             'quantifiers with bound names clashing with free ones, lambda, = at bool/nat/int/real, comparisons, '
-            '+ - * / uminus power of_nat if-then-else, numerals at three types; ASCII and Unicode, line_length '
+            '+ - * / uminus power of_nat if-then-else, numerals at three types, function variables applied to negative '
+            'literals, 2-3 nested binders (all / exists / set comprehension) with repeated suggested names; ASCII and Unicode, line_length '
             'None/20(/80), printed twice (cold / after all others); non-trivial = distinct terms', 'evaluations': evals,
             'distinct_nontrivial': len(distinct), 'samples': samples, 'violations': uniq[:12],
             'n_violations': len(uniq), 'all_violations': len(violations), 'secs': round(time.time() - t0, 1)}
